@@ -160,6 +160,9 @@ fn main() {
             if a.get("framing-extremes").is_some() {
                 d_lzma2::framing_extremes(&prop, &mut rep);
             }
+            if a.get("dict-reset-probes").is_some() {
+                d_lzma2::dict_reset_probes(&prop, &mut rep);
+            }
             let fw = a.num("fault-walks", 0) as usize;
             if fw > 0 {
                 d_lzma2::fault_walks(&prop, seed, fw, &mut rep);
